@@ -136,6 +136,14 @@ type histSys struct {
 	hist     []string
 	refs     map[string]string
 	full     bool
+	// foreign: someone else has set spec.extra.b on child a (to the very value the hook uses when it desires b)
+	// while the hook did not desire b, and nothing has taken the field over or removed it since. A field of
+	// someone else is kept; once the hook has desired it, it is the hook's and goes when the hook drops it.
+	foreign bool
+}
+
+func histForeignEdit(w *cworld) {
+	w.Sim.Edit(kit.Leaf, "n1", "a", func(o map[string]interface{}) { kit.Field(o, int64(2), "spec", "extra", "b") })
 }
 
 func histWorld(cfg histCfg, s histSpec) *cworld {
@@ -298,7 +306,11 @@ func (x *histSys) namesOnly() bool { return x.cfg.Method == "<unset>" && !x.cfg.
 
 // reference: the store of a fresh world brought up directly with this spec.
 func (x *histSys) reference(s histSpec) string {
-	if r, ok := x.refs[s.key()]; ok {
+	rk := s.key()
+	if x.foreign {
+		rk += "|foreign"
+	}
+	if r, ok := x.refs[rk]; ok {
 		return r
 	}
 	w := histWorld(x.cfg, s)
@@ -306,23 +318,32 @@ func (x *histSys) reference(s histSpec) string {
 	ok := histSettle(w, func(key, format string, a ...interface{}) {
 		x.bad("reference:"+key, format, a...)
 	})
+	if ok && x.foreign {
+		// ... and then the same edit by someone else
+		histForeignEdit(w)
+		w.DeliverAll()
+		ok = histSettle(w, func(key, format string, a ...interface{}) {
+			x.bad("reference:"+key, format, a...)
+		})
+	}
 	if !ok {
 		x.bad("reference:no-convergence", "a fresh world with this spec does not become quiescent")
 	}
 	r := histEssence(w, x.namesOnly())
-	x.refs[s.key()] = r
+	x.refs[rk] = r
 	common.VerifResetSSAMemo()
 	return r
 }
 
 type histSnap struct {
-	snap *world.Snap
-	spec histSpec
-	hist []string
+	snap    *world.Snap
+	spec    histSpec
+	hist    []string
+	foreign bool
 }
 
 func (x *histSys) Snapshot() interface{} {
-	return &histSnap{x.w.Base.Snapshot(), x.spec, append([]string{}, x.hist...)}
+	return &histSnap{x.w.Base.Snapshot(), x.spec, append([]string{}, x.hist...), x.foreign}
 }
 
 func (x *histSys) Restore(s interface{}) {
@@ -330,6 +351,7 @@ func (x *histSys) Restore(s interface{}) {
 	x.w.Base.Restore(hs.snap)
 	common.VerifResetSSAMemo()
 	x.spec = hs.spec
+	x.foreign = hs.foreign
 	x.hist = append([]string{}, hs.hist...)
 }
 
@@ -351,7 +373,9 @@ func (x *histSys) Events() []string {
 		// own field-ownership rules, which the simulated server only approximates)
 		add("status", fmt.Sprint(x.spec.Status), "true", "false")
 	}
-	add("echo", x.spec.Echo, "", "annotations", "full")
+	if !x.foreign {
+		add("echo", x.spec.Echo, "", "annotations", "full")
+	}
 	// every change of the desired state also together with a one-shot fault: the hook fails once / one child
 	// write is refused once - the retries must end in the same cluster
 	for _, e := range append([]string{}, ev...) {
@@ -372,6 +396,9 @@ func (x *histSys) Events() []string {
 	if !x.namesOnly() {
 		ev = append(ev, "env:drift-a")
 	}
+	if x.cfg.Method == "InPlace" && !x.cfg.SSA && x.spec.Echo == "" && !x.foreign && (x.spec.Extra == "one" || x.spec.Extra == "empty") {
+		ev = append(ev, "env:other-sets-extra-b-on-a")
+	}
 	return ev
 }
 
@@ -381,6 +408,10 @@ func (x *histSys) Apply(ev string) {
 		switch ev {
 		case "env:delete-a":
 			x.w.Sim.Remove(kit.Leaf, "n1", "a")
+			x.foreign = false // recreated from the hook's answer alone
+		case "env:other-sets-extra-b-on-a":
+			histForeignEdit(x.w)
+			x.foreign = true
 		case "env:orphan-a":
 			x.w.Sim.Edit(kit.Leaf, "n1", "a", func(o map[string]interface{}) { delete(o["metadata"].(map[string]interface{}), "ownerReferences") })
 		case "env:drift-a":
@@ -405,6 +436,11 @@ func (x *histSys) Apply(ev string) {
 			x.spec.Replicas = int(kv[1][0] - '0')
 		case "extra":
 			x.spec.Extra = kv[1]
+			if kv[1] == "both" || kv[1] == "absent" {
+				// the hook takes the field over / drops the whole map it had applied: either way b is not
+				// "someone else's field that the hook never mentioned" any more
+				x.foreign = false
+			}
 		case "ports":
 			x.spec.Ports = kv[1]
 		case "status":
@@ -442,7 +478,7 @@ func (x *histSys) Apply(ev string) {
 func (x *histSys) Canon() string {
 	// (OnDelete: the content of existing children is history by design and never written again - only the
 	// set of children is compared and canonicalised)
-	return x.spec.key() + "|" + mc.Hash(histEssence(x.w, x.namesOnly()))
+	return fmt.Sprintf("%s|%v|", x.spec.key(), x.foreign) + mc.Hash(histEssence(x.w, x.namesOnly()))
 }
 
 func (x *histSys) TakeFindings() []mc.Finding {
